@@ -1,15 +1,9 @@
 (* C06 driver: one case per input line, one result line per case (formats: see props/C06.py).
-   argv[1] = cases, argv[2] = "-" (unused), argv[3] = variant: repaired | defective | def_adopt | def_aaa | def_auth | lns_found | lns_adopt | lns_aaa | lns_always *)
-let fl5 a b c d e = { f_auth = a; f_adopt = b; f_aaa = c; f_keep = d; f_always = e }
+   argv[1] = cases, argv[2] = "-" (unused), argv[3] = variant: repaired | def_restore (| defective | lns_found: historical) *)
 let flags_of = function
-  | "defective" -> defective
-  | "def_auth" -> fl5 true false false false false
-  | "def_adopt" -> fl5 false true false true false
-  | "def_aaa" -> fl5 false false true false false
-  | "lns_found" -> lns_found
-  | "lns_adopt" -> fl5 false true false false false
-  | "lns_aaa" -> fl5 false false true false false
-  | "lns_always" -> fl5 false false false false true
+  | "def_restore" -> def_restore
+  | "defective" -> defective          (* historical: pkg/ppp + PPPoE before 54fb851 / 95b0af2 / bc32486 *)
+  | "lns_found" -> lns_found          (* historical: LNS before ce9ad2f *)
   | _ -> repaired
 
 let hexs (l : n list) : string = String.concat "" (List.map (fun x -> Printf.sprintf "%02x" (int_of_n x)) l)
@@ -139,8 +133,10 @@ let () =
                            or_reserve_ok = (rs <> "cf") } in
       let aaa_of a = if a = "none" then None else Some (unhex a) in
       let (a0, al0, rs0) = split3 start in
-      let s0 = sess_start fl ow (aaa_of a0) (orc_of al0 rs0) in
-      let first = (if int_of_n s0.s_fsm = 0 then "-" else "scr:" ^ show_opts s0.s_lastreq) ^ " a=" ^ show_addr s0.s_addr ^ " pa=" ^ show_addr s0.s_cfg.ic_assigned in
+      let s0 = if String.length a0 > 8 && String.sub a0 0 8 = "restore:"
+        then sess_restore fl (unhex (String.sub a0 8 (String.length a0 - 8))) None None
+        else sess_start fl ow (aaa_of a0) (orc_of al0 rs0) in
+      let first = (if int_of_n s0.s_fsm = 0 || int_of_n s0.s_fsm = 9 then "-" else "scr:" ^ show_opts s0.s_lastreq) ^ " a=" ^ show_addr s0.s_addr ^ " pa=" ^ show_addr s0.s_cfg.ic_assigned in
       let (outs, _) = List.fold_left (fun (acc, s) ev ->
           let tl = String.sub ev 1 (String.length ev - 1) in
           let e = if ev = "k" then EvAck
@@ -158,6 +154,33 @@ let () =
           let (s', acts) = sess_step fl s e in
           (Printf.sprintf "%s up=%d a=%s pa=%s" (show_acts ~callbacks:false ~req:(Some s'.s_lastreq) acts) (if s'.s_open then 1 else 0) (show_addr s'.s_addr) (show_addr s'.s_cfg.ic_assigned) :: acc, s'))
           ([first], s0) evs in
+      print_endline (String.concat " | " (List.rev outs))
+    | "s6" :: mac :: evs ->
+      (* IPv6CP inside a PPPoE session: <bng mac> then events q<id>.<wire> | e<id> | k | n<wire> | j<wire> | R *)
+      let m = iid_from_mac (unhex mac) in
+      let show s acts = Printf.sprintf "%s up=%d lid=%s"
+          (let l = List.filter_map (function
+             | Scr -> Some ("scr:" ^ show_opts s.vs_last)
+             | Sca (id, os) -> Some (Printf.sprintf "sca:%d:%s" (int_of_n id) (show_opts os))
+             | Scn (id, os) -> Some (Printf.sprintf "scn:%d:%s" (int_of_n id) (show_opts ~sugg:true os))
+             | Scj (id, os) -> Some (Printf.sprintf "scj:%d:%s" (int_of_n id) (show_opts os))
+             | Sta id -> Some (Printf.sprintf "sta:%d" (int_of_n id))
+             | _ -> None) acts in if l = [] then "-" else String.concat " " l)
+          (if s.vs_open then 1 else 0) (hexs s.vs_obj.vo_local) in
+      let (s1, a1) = v6sess_step (v6sess0 (List.init 8 (fun _ -> N0))) (V6Start m) in
+      let (outs, _) = List.fold_left (fun (acc, s) ev ->
+          let tl = String.sub ev 1 (String.length ev - 1) in
+          let e = match ev.[0] with
+            | 'q' -> let i = String.index ev '.' in
+              V6Req (n_of_int (int_of_string (String.sub ev 1 (i - 1))),
+                     unhex (String.sub ev (i + 1) (String.length ev - i - 1)), oracle)
+            | 'e' -> V6Echo (n_of_int (int_of_string tl), oracle)
+            | 'k' -> V6Ack
+            | 'n' -> V6Nak (unhex tl)
+            | 'j' -> V6Rej (unhex tl)
+            | 'R' -> V6Start m
+            | _ -> failwith "ev" in
+          let (s', acts) = v6sess_step s e in (show s' acts :: acc, s')) ([show s1 a1], s1) evs in
       print_endline (String.concat " | " (List.rev outs))
     | _ -> print_endline "badline"
     with e -> print_endline ("modelerror " ^ Printexc.to_string e)) lines
